@@ -278,6 +278,7 @@ func (m *MemoryBackend) Subscribe(client *Client, subs []packet.Subscription, ac
 
 	// save subscription
 	for _, sub := range subs {
+		sub := sub
 		sess.subscriptions.Set(sub.Topic, &sub)
 	}
 
